@@ -32,7 +32,7 @@ TRANSLATORS = ["T2"]
 LEVEL = "proof"
 ASSUMPTIONS = [
     "the classification of the plain enforcer's methods into mutating / reading / pure (Model/Synced.lean) is trusted for `mutates` and observed at run time for `reads`/`pure` (purity observation on sample enforcers)",
-    "the lock is the abstract readers-writer lock (writer alone, readers without writer) that C16 proves RWLockWrite to be; the formal refinement C16 -> abstract lock is not proved in Lean",
+    "the lock is the abstract readers-writer lock (writer alone, readers without writer) that C16 proves RWLockWrite to be; Props/C16 lock_refines_abstract proves that refinement for the counter abstraction of the lock program",
     "results that are live objects (model, role manager, adapter) are compared by identity with what the wrapped method returned, not by content",
     "the auto-reload thread's timing is not explored; its body goes through the load_policy wrapper (row of the table)",
     "data races inside CPython containers (free-threading) are outside the model: scheduling points are lock operations, call entries and role-manager mutations",
